@@ -5,6 +5,147 @@ Import ListNotations.
 Require Import Pyrefact.SchedModel.
 Open Scope Z_scope.
 
+(* ======================================================================================== *)
+(* Generic list lemmas                                                                       *)
+(* ======================================================================================== *)
+
+Lemma existsb_false_iff {A} (f : A -> bool) (l : list A) :
+  existsb f l = false <-> forall x, In x l -> f x = false.
+Proof.
+  induction l as [|a l IH]; simpl.
+  - split; [intros _ x []| reflexivity].
+  - rewrite orb_false_iff, IH. split.
+    + intros [Ha Hl] x [<-|Hx]; auto.
+    + intros H. split; [apply H; left; reflexivity | intros x Hx; apply H; right; exact Hx].
+Qed.
+
+Lemma bool_eq_iff (a b : bool) : (a = true <-> b = true) -> a = b.
+Proof.
+  destruct a, b; intros [H1 H2]; try reflexivity;
+    [symmetry; apply H1; reflexivity | apply H2; reflexivity].
+Qed.
+
+Lemma filter_nil {A} (f : A -> bool) (l : list A) :
+  (forall x, In x l -> f x = false) -> filter f l = [].
+Proof.
+  induction l as [|a l IH]; simpl; intros H; [reflexivity|].
+  rewrite (H a (or_introl eq_refl)). apply IH. intros x Hx. apply H. right; exact Hx.
+Qed.
+
+Lemma filter_all {A} (f : A -> bool) (l : list A) :
+  (forall x, In x l -> f x = true) -> filter f l = l.
+Proof.
+  induction l as [|a l IH]; simpl; intros H; [reflexivity|].
+  rewrite (H a (or_introl eq_refl)). f_equal. apply IH. intros x Hx. apply H. right; exact Hx.
+Qed.
+
+Lemma filter_perm {A} (f : A -> bool) (l l' : list A) :
+  Permutation l l' -> Permutation (filter f l) (filter f l').
+Proof.
+  induction 1 as [| x l l' HP IH | x y l | l l' l'' HP1 IH1 HP2 IH2]; simpl.
+  - constructor.
+  - destruct (f x); [constructor|]; assumption.
+  - destruct (f x), (f y); try reflexivity. apply perm_swap.
+  - etransitivity; eassumption.
+Qed.
+
+Lemma FOP_app {A} (R : A -> A -> Prop) (l1 l2 : list A) :
+  ForallOrdPairs R l1 -> ForallOrdPairs R l2 ->
+  (forall a b, In a l1 -> In b l2 -> R a b) ->
+  ForallOrdPairs R (l1 ++ l2).
+Proof.
+  induction l1 as [|x l1 IH]; simpl; intros H1 H2 H12; [exact H2|].
+  inversion H1 as [|? ? Hx Hl1]; subst. constructor.
+  - apply Forall_app. split; [exact Hx|].
+    apply Forall_forall. intros b Hb. apply H12; [left; reflexivity | exact Hb].
+  - apply IH; [exact Hl1 | exact H2 |]. intros a b Ha Hb. apply H12; [right; exact Ha | exact Hb].
+Qed.
+
+Lemma FOP_perm {A} (R : A -> A -> Prop) (Rsym : forall a b, R a b -> R b a) (l l' : list A) :
+  Permutation l l' -> ForallOrdPairs R l -> ForallOrdPairs R l'.
+Proof.
+  induction 1 as [| x l l' HP IH | x y l | l l' l'' HP1 IH1 HP2 IH2]; intros HF.
+  - exact HF.
+  - inversion HF as [|? ? Hx Hl]; subst. constructor; [|apply IH; exact Hl].
+    rewrite Forall_forall in *. intros b Hb. apply Hx.
+    apply Permutation_in with (l := l'); [apply Permutation_sym; exact HP | exact Hb].
+  - inversion HF as [|? ? Hy Hl]; subst. inversion Hl as [|? ? Hx Hl']; subst.
+    inversion Hy as [|? ? Hyx Hyl]; subst.
+    constructor; [constructor; [apply Rsym; exact Hyx | exact Hx]|].
+    constructor; [exact Hyl | exact Hl'].
+  - apply IH2, IH1, HF.
+Qed.
+
+Lemma iter_succ_r {A} (f : A -> A) (n : nat) (x : A) : Nat.iter (S n) f x = Nat.iter n f (f x).
+Proof.
+  induction n as [|n IH]; [reflexivity|].
+  change (Nat.iter (S (S n)) f x) with (f (Nat.iter (S n) f x)). rewrite IH. reflexivity.
+Qed.
+
+(* ---- keys ---- *)
+Lemma key_cmp_Lt (a b : tkey) :
+  key_cmp a b = Lt <-> (fst a < fst b \/ (fst a = fst b /\ snd a < snd b)).
+Proof.
+  unfold key_cmp. destruct (Z.compare_spec (fst a) (fst b)) as [H|H|H].
+  - rewrite Z.compare_lt_iff. lia.
+  - split; [intros _; lia | reflexivity].
+  - split; [discriminate | intros; exfalso; lia].
+Qed.
+
+Lemma key_cmp_Gt (a b : tkey) : key_cmp a b = Gt <-> key_cmp b a = Lt.
+Proof.
+  rewrite key_cmp_Lt. unfold key_cmp. destruct (Z.compare_spec (fst a) (fst b)) as [H|H|H].
+  - rewrite Z.compare_gt_iff. lia.
+  - split; [discriminate | intros; exfalso; lia].
+  - split; [intros _; lia | reflexivity].
+Qed.
+
+Lemma key_cmp_Eq (a b : tkey) : key_cmp a b = Eq <-> a = b.
+Proof.
+  destruct a as [a1 a2], b as [b1 b2]. unfold key_cmp; simpl.
+  destruct (Z.compare_spec a1 b1) as [H|H|H].
+  - rewrite Z.compare_eq_iff. split; [intros E; subst; reflexivity | intros E; inversion E; reflexivity].
+  - split; [discriminate | intros E; inversion E; exfalso; lia].
+  - split; [discriminate | intros E; inversion E; exfalso; lia].
+Qed.
+
+Lemma key_eqb_spec (a b : tkey) : key_eqb a b = true <-> a = b.
+Proof.
+  destruct a as [a1 a2], b as [b1 b2]. unfold key_eqb; simpl.
+  rewrite andb_true_iff, !Z.eqb_eq.
+  split; [intros [E1 E2]; subst; reflexivity | intros E; inversion E; auto].
+Qed.
+
+Lemma key_eqb_refl (a : tkey) : key_eqb a a = true.
+Proof. apply key_eqb_spec. reflexivity. Qed.
+
+Lemma key_eqb_neq (a b : tkey) : a <> b -> key_eqb a b = false.
+Proof.
+  intros H. destruct (key_eqb a b) eqn:E; [|reflexivity].
+  apply key_eqb_spec in E. contradiction.
+Qed.
+
+Definition klt (a b : tkey) : Prop := key_cmp a b = Lt.
+
+Lemma klt_trans a b c : klt a b -> klt b c -> klt a c.
+Proof. unfold klt. rewrite !key_cmp_Lt. lia. Qed.
+
+Lemma klt_irrefl a : ~ klt a a.
+Proof. unfold klt. rewrite key_cmp_Lt. lia. Qed.
+
+Lemma klt_asym a b : klt a b -> klt b a -> False.
+Proof. unfold klt. rewrite !key_cmp_Lt. lia. Qed.
+
+Lemma overlaps_sym (a b : range) : overlaps a b = overlaps b a.
+Proof. unfold overlaps. apply andb_comm. Qed.
+
+Lemma range_eqb_spec (a b : range) : range_eqb a b = true <-> a = b.
+Proof.
+  destruct a as [a1 a2], b as [b1 b2]. unfold range_eqb; simpl.
+  rewrite andb_true_iff, !Z.eqb_eq.
+  split; [intros [E1 E2]; subst; reflexivity | intros E; inversion E; auto].
+Qed.
+
 Section Proofs.
 Variable T : Type.
 Variable teqb : T -> T -> bool.
@@ -19,11 +160,121 @@ Notation schedule' := (schedule T teqb tcmp ilines).
 Definition disjoint_entries (a b : entry) : Prop :=
   overlaps (rrng (snd a)) (rrng (snd b)) = false.
 
+(* ---------------------------------------------------------------------------------------- *)
+(* auxiliary lemmas for schedule_disjoint                                                     *)
+(* ---------------------------------------------------------------------------------------- *)
+Notation txm := (txmap T).
+Notation dd := (dedup T teqb).
+Notation ptx := (process_tx T teqb ilines).
+Notation nodup' := (nodup_rw T teqb).
+
+Lemma disjoint_sym (a b : entry) : disjoint_entries a b -> disjoint_entries b a.
+Proof. unfold disjoint_entries. intros H. rewrite overlaps_sym. exact H. Qed.
+
+Lemma judge_accepted_iff (sched : list entry) (rs : list rw) :
+  judge T ilines sched rs = Accepted <->
+  (existsb (fun r => ignored ilines (rrng r)) rs = false
+   /\ self_conflict T rs = false /\ sched_conflict T sched rs = false).
+Proof.
+  unfold judge.
+  destruct (existsb (fun r => ignored ilines (rrng r)) rs);
+    destruct (self_conflict T rs); destruct (sched_conflict T sched rs);
+    split; intros H; try discriminate;
+    try (destruct H as (H1 & H2 & H3); discriminate); auto.
+Qed.
+
+Lemma self_conflict_FOP (key : tkey) (rs : list rw) :
+  self_conflict T rs = false ->
+  ForallOrdPairs disjoint_entries (map (fun r => (key, r)) rs).
+Proof.
+  induction rs as [|a rs IH]; simpl; intros H; [constructor|].
+  apply orb_false_iff in H. destruct H as [H1 H2].
+  constructor; [|apply IH; exact H2].
+  apply Forall_forall. intros e He. apply in_map_iff in He. destruct He as [o [Eo Ho]]. subst e.
+  unfold disjoint_entries; simpl.
+  rewrite existsb_false_iff in H1. exact (H1 o Ho).
+Qed.
+
+Lemma sched_conflict_false (sched : list entry) (rs : list rw) :
+  sched_conflict T sched rs = false <->
+  forall r o, In r rs -> In o sched -> overlaps (rrng r) (rrng (snd o)) = false.
+Proof.
+  unfold sched_conflict. rewrite existsb_false_iff. split.
+  - intros H r o Hr Ho. specialize (H r Hr). rewrite existsb_false_iff in H. exact (H o Ho).
+  - intros H r Hr. rewrite existsb_false_iff. intros o Ho. exact (H r o Hr Ho).
+Qed.
+
+Lemma process_tx_disjoint k sched e :
+  ForallOrdPairs disjoint_entries sched -> ForallOrdPairs disjoint_entries (ptx k sched e).
+Proof.
+  intros HF. destruct e as [key rs0]. unfold process_tx; cbv beta iota zeta.
+  destruct (negb (fst key =? k)); [exact HF|].
+  destruct (judge T ilines sched (nodup' rs0)) eqn:HJ; try exact HF.
+  apply judge_accepted_iff in HJ. destruct HJ as (_ & Hself & Hsched).
+  apply FOP_app.
+  - exact HF.
+  - apply self_conflict_FOP; exact Hself.
+  - intros a b Ha Hb. apply in_map_iff in Hb. destruct Hb as [r [Er Hr]]. subst b.
+    unfold disjoint_entries; simpl. rewrite overlaps_sym.
+    rewrite sched_conflict_false in Hsched. exact (Hsched r a Hr Ha).
+Qed.
+
+Lemma fold_process_tx_disjoint k tr : forall sched,
+  ForallOrdPairs disjoint_entries sched ->
+  ForallOrdPairs disjoint_entries (fold_left (ptx k) tr sched).
+Proof.
+  induction tr as [|e tr IH]; intros sched H; simpl; [exact H|].
+  apply IH. apply process_tx_disjoint. exact H.
+Qed.
+
+Lemma run_groups_cons k cnt tr sched g gs :
+  run_groups T teqb ilines k cnt tr sched (g :: gs) =
+  let '(items, cnt') := fill T cnt g in
+  let tr2 := dd [] (add_items T k items tr) in
+  run_groups T teqb ilines (k + 1) cnt' tr2 (fold_left (ptx k) tr2 sched) gs.
+Proof. reflexivity. Qed.
+
+Lemma run_groups_disjoint gs : forall k cnt tr sched,
+  ForallOrdPairs disjoint_entries sched ->
+  ForallOrdPairs disjoint_entries (snd (run_groups T teqb ilines k cnt tr sched gs)).
+Proof.
+  induction gs as [|g gs IH]; intros k cnt tr sched H; [exact H|].
+  rewrite run_groups_cons. destruct (fill T cnt g) as [items cnt']. cbv zeta.
+  apply IH. apply fold_process_tx_disjoint. exact H.
+Qed.
+
+Lemma insert_desc_perm (x : entry) (l : list entry) :
+  Permutation (x :: l) (insert_desc T tcmp x l).
+Proof.
+  induction l as [|y l IH]; simpl; [reflexivity|].
+  destruct (entry_cmp T tcmp x y); try reflexivity;
+    (etransitivity; [apply perm_swap | apply perm_skip; exact IH]).
+Qed.
+
+Lemma fold_insert_perm (l : list entry) : forall acc,
+  Permutation (l ++ acc) (fold_left (fun acc x => insert_desc T tcmp x acc) l acc).
+Proof.
+  induction l as [|x l IH]; intros acc; simpl; [reflexivity|].
+  etransitivity; [|apply IH].
+  etransitivity; [apply Permutation_middle|].
+  apply Permutation_app_head. apply insert_desc_perm.
+Qed.
+
+Lemma sort_desc_perm (l : list entry) : Permutation l (sort_desc T tcmp l).
+Proof.
+  unfold sort_desc. pose proof (fold_insert_perm l []) as H. rewrite app_nil_r in H. exact H.
+Qed.
+
 (* ---- T10.2 disjointness: no two scheduled rewrites (at different list positions) overlap ---- *)
 Theorem schedule_disjoint :
   forall groups, ForallOrdPairs disjoint_entries (schedule' groups).
 Proof.
-Admitted.
+  intros groups. unfold schedule.
+  apply FOP_perm with (l := accepted_unsorted T teqb ilines groups).
+  - exact disjoint_sym.
+  - apply sort_desc_perm.
+  - unfold accepted_unsorted. apply run_groups_disjoint. constructor.
+Qed.
 
 (* ---- the complete list of (key, rewrite) items as yielded, independent of the scheduler ---- *)
 Fixpoint all_items (k cnt : Z) (groups : list (list (yielded T))) : list entry :=
@@ -37,6 +288,594 @@ Fixpoint all_items (k cnt : Z) (groups : list (list (yielded T))) : list entry :
 Definition tx_of (groups : list (list (yielded T))) (key : tkey) : list rw :=
   map snd (filter (fun e => key_eqb (fst e) key) (all_items 0 START_COUNT groups)).
 
+(* ======================================================================================== *)
+(* Machinery for atomicity and the drop characterisation.                                     *)
+(* Plan: run_groups is equal to a non-incremental pipeline                                    *)
+(*    F := full ... groups          (all items of all groups inserted, no dedup)              *)
+(*    D := dedup [] F                                                                         *)
+(*    Sc := fold_left process_any D []     (process_tx without the group test)                *)
+(* and the three stages are analysed separately.                                              *)
+(* ======================================================================================== *)
+
+(* ---- equality tests ---- *)
+Lemma rw_eqb_spec (a b : rw) : rw_eqb T teqb a b = true <-> a = b.
+Proof.
+  destruct a as [ra na], b as [rb nb]. unfold rw_eqb; simpl.
+  rewrite andb_true_iff, range_eqb_spec, teqb_spec.
+  split; [intros [E1 E2]; subst; reflexivity | intros E; inversion E; auto].
+Qed.
+
+Lemma rws_eqb_spec (a : list rw) : forall b, rws_eqb T teqb a b = true <-> a = b.
+Proof.
+  induction a as [|x a IH]; intros [|y b]; simpl.
+  - split; reflexivity.
+  - split; discriminate.
+  - split; discriminate.
+  - rewrite andb_true_iff, rw_eqb_spec, IH.
+    split; [intros [E1 E2]; subst; reflexivity | intros E; inversion E; auto].
+Qed.
+
+Lemma existsb_rws_In (rs : list rw) (seen : list (list rw)) :
+  existsb (rws_eqb T teqb rs) seen = true <-> In rs seen.
+Proof.
+  rewrite existsb_exists. split.
+  - intros [x [Hx He]]. apply rws_eqb_spec in He. subst x. exact Hx.
+  - intros H. exists rs. split; [exact H | apply rws_eqb_spec; reflexivity].
+Qed.
+
+(* ---- nodup_rw ---- *)
+Lemma nodup_rw_In (r : rw) (rs : list rw) : In r (nodup' rs) <-> In r rs.
+Proof.
+  induction rs as [|a tl IH]; simpl; [tauto|].
+  destruct (existsb (rw_eqb T teqb a) tl) eqn:E.
+  - rewrite IH. split; [intros H; right; exact H|].
+    intros [Ea|H]; [|exact H]. subst a.
+    apply existsb_exists in E. destruct E as [x [Hx He]].
+    apply rw_eqb_spec in He. subst x. exact Hx.
+  - simpl. rewrite IH. tauto.
+Qed.
+
+Lemma existsb_nodup_rw (f : rw -> bool) (rs : list rw) :
+  existsb f (nodup' rs) = existsb f rs.
+Proof.
+  apply bool_eq_iff. rewrite !existsb_exists.
+  split; intros [x [Hx Hf]]; exists x; (split; [|exact Hf]).
+  - apply (proj1 (nodup_rw_In x rs)). exact Hx.
+  - apply (proj2 (nodup_rw_In x rs)). exact Hx.
+Qed.
+
+(* ---- process_any: process_tx without the group test ---- *)
+Definition tx_entries (e : tkey * list rw) : list entry :=
+  map (fun r => (fst e, r)) (nodup' (snd e)).
+
+Definition process_any (sched : list entry) (e : tkey * list rw) : list entry :=
+  match judge T ilines sched (nodup' (snd e)) with
+  | Accepted => sched ++ tx_entries e
+  | _ => sched
+  end.
+
+Lemma process_any_ext sched e :
+  process_any sched e = sched \/
+  (judge T ilines sched (nodup' (snd e)) = Accepted /\ process_any sched e = sched ++ tx_entries e).
+Proof.
+  unfold process_any. destruct (judge T ilines sched (nodup' (snd e))); auto.
+Qed.
+
+Lemma process_any_accept sched e :
+  judge T ilines sched (nodup' (snd e)) = Accepted -> process_any sched e = sched ++ tx_entries e.
+Proof. intros H. unfold process_any. rewrite H. reflexivity. Qed.
+
+Lemma process_tx_skip k sched e : fst (fst e) <> k -> ptx k sched e = sched.
+Proof.
+  destruct e as [key rs0]. simpl. intros H. unfold process_tx; cbv beta iota zeta.
+  destruct (Z.eqb_spec (fst key) k) as [E|E]; [contradiction | reflexivity].
+Qed.
+
+Lemma process_tx_same k sched e : fst (fst e) = k -> ptx k sched e = process_any sched e.
+Proof.
+  destruct e as [key rs0]. simpl. intros H. unfold process_tx, process_any, tx_entries;
+    cbv beta iota zeta.
+  rewrite (proj2 (Z.eqb_eq _ _) H). reflexivity.
+Qed.
+
+Lemma fold_process_skip k (tr : txm) sched :
+  Forall (fun e => fst (fst e) <> k) tr -> fold_left (ptx k) tr sched = sched.
+Proof.
+  induction tr as [|e tr IH]; intros H; simpl; [reflexivity|].
+  inversion H as [|? ? He Htr]; subst.
+  rewrite process_tx_skip by exact He. apply IH; exact Htr.
+Qed.
+
+Lemma fold_process_same k (tr : txm) : forall sched,
+  Forall (fun e => fst (fst e) = k) tr ->
+  fold_left (ptx k) tr sched = fold_left process_any tr sched.
+Proof.
+  induction tr as [|e tr IH]; intros sched H; simpl; [reflexivity|].
+  pose proof (Forall_inv H) as He. pose proof (Forall_inv_tail H) as Htr. simpl in He.
+  rewrite process_tx_same by exact He. apply IH; exact Htr.
+Qed.
+
+(* ---- tr_add / add_items ---- *)
+Lemma tr_add_cons k r k' rs (tl : txm) :
+  tr_add T k r ((k', rs) :: tl) =
+  match key_cmp k k' with
+  | Eq => (k', rs ++ [r]) :: tl
+  | Lt => (k, [r]) :: (k', rs) :: tl
+  | Gt => (k', rs) :: tr_add T k r tl
+  end.
+Proof. reflexivity. Qed.
+
+Lemma add_items_cons k it items (tr : txm) :
+  add_items T k (it :: items) tr = add_items T k items (tr_add T (k, fst it) (snd it) tr).
+Proof. reflexivity. Qed.
+
+Definition groups_lt (k : Z) (tr : txm) : Prop := Forall (fun e => fst (fst e) < k) tr.
+
+Lemma tr_add_app k t r (X Y : txm) :
+  groups_lt k X -> tr_add T (k, t) r (X ++ Y) = X ++ tr_add T (k, t) r Y.
+Proof.
+  induction X as [|[k' rs] X IH]; intros H; [reflexivity|].
+  inversion H as [|? ? Hk HX]; subst. simpl in Hk.
+  rewrite <- !app_comm_cons, tr_add_cons.
+  assert (Hc : key_cmp (k, t) k' = Gt).
+  { apply key_cmp_Gt, key_cmp_Lt. simpl. lia. }
+  rewrite Hc, (IH HX). reflexivity.
+Qed.
+
+Lemma add_items_app k items : forall (X Y : txm),
+  groups_lt k X -> add_items T k items (X ++ Y) = X ++ add_items T k items Y.
+Proof.
+  induction items as [|it items IH]; intros X Y H; [reflexivity|].
+  rewrite !add_items_cons, tr_add_app by exact H. apply IH; exact H.
+Qed.
+
+Lemma add_items_app_nil k items (X : txm) :
+  groups_lt k X -> add_items T k items X = X ++ add_items T k items [].
+Proof.
+  intros H. pose proof (add_items_app k items X [] H) as E. rewrite app_nil_r in E. exact E.
+Qed.
+
+Lemma tr_add_keys (P : tkey -> Prop) k r (tr : txm) :
+  Forall (fun e => P (fst e)) tr -> P k -> Forall (fun e => P (fst e)) (tr_add T k r tr).
+Proof.
+  intros H Hk. induction tr as [|[k' rs] tl IH].
+  - simpl. constructor; [exact Hk | constructor].
+  - rewrite tr_add_cons. inversion H as [|? ? Hk' Htl]; subst.
+    destruct (key_cmp k k').
+    + constructor; [exact Hk' | exact Htl].
+    + constructor; [exact Hk | exact H].
+    + constructor; [exact Hk' | apply IH; exact Htl].
+Qed.
+
+Lemma add_items_groups k items : forall (Y : txm),
+  Forall (fun e => fst (fst e) = k) Y -> Forall (fun e => fst (fst e) = k) (add_items T k items Y).
+Proof.
+  induction items as [|it items IH]; intros Y H; [exact H|].
+  rewrite add_items_cons. apply IH.
+  apply (tr_add_keys (fun key => fst key = k)); [exact H | reflexivity].
+Qed.
+
+(* ---- dedup ---- *)
+Lemma dedup_cons seen k rs (tl : txm) :
+  dd seen ((k, rs) :: tl) =
+  if existsb (rws_eqb T teqb rs) seen then dd (rs :: seen) tl else (k, rs) :: dd (rs :: seen) tl.
+Proof. reflexivity. Qed.
+
+Lemma dedup_app (X : txm) : forall seen Y,
+  dd seen (X ++ Y) = dd seen X ++ dd (rev (map snd X) ++ seen) Y.
+Proof.
+  induction X as [|[k rs] X IH]; intros seen Y; [reflexivity|].
+  rewrite <- app_comm_cons, !dedup_cons.
+  assert (E : rev (map snd ((k, rs) :: X)) ++ seen = rev (map snd X) ++ rs :: seen).
+  { simpl. rewrite <- app_assoc. reflexivity. }
+  rewrite E. destruct (existsb (rws_eqb T teqb rs) seen).
+  - apply IH.
+  - rewrite <- app_comm_cons. f_equal. apply IH.
+Qed.
+
+Lemma dedup_Forall (P : tkey * list rw -> Prop) (X : txm) : forall seen,
+  Forall P X -> Forall P (dd seen X).
+Proof.
+  induction X as [|[k rs] X IH]; intros seen H; [constructor|].
+  inversion H as [|? ? Hp HX]; subst. rewrite dedup_cons.
+  destruct (existsb (rws_eqb T teqb rs) seen); [|constructor; [exact Hp|]]; apply IH; exact HX.
+Qed.
+
+Lemma dedup_incl (X : txm) : forall seen e, In e (dd seen X) -> In e X.
+Proof.
+  induction X as [|[k rs] X IH]; intros seen e H; [exact H|].
+  rewrite dedup_cons in H. destruct (existsb (rws_eqb T teqb rs) seen).
+  - right. exact (IH _ _ H).
+  - destruct H as [E|H]; [left; exact E | right; exact (IH _ _ H)].
+Qed.
+
+Lemma dedup_ext (Y : txm) : forall s1 s2,
+  (forall rs, In rs s1 <-> In rs s2) -> dd s1 Y = dd s2 Y.
+Proof.
+  induction Y as [|[k rs] Y IH]; intros s1 s2 H; [reflexivity|].
+  rewrite !dedup_cons.
+  assert (E : existsb (rws_eqb T teqb rs) s1 = existsb (rws_eqb T teqb rs) s2).
+  { apply bool_eq_iff. rewrite !existsb_rws_In. apply H. }
+  assert (E' : dd (rs :: s1) Y = dd (rs :: s2) Y).
+  { apply IH. intros x. simpl. rewrite (H x). tauto. }
+  rewrite E, E'. reflexivity.
+Qed.
+
+Lemma dedup_idem (X : txm) : forall s1 s2,
+  (forall rs, In rs s1 -> In rs s2) -> dd s1 (dd s2 X) = dd s2 X.
+Proof.
+  induction X as [|[k rs] X IH]; intros s1 s2 H; [reflexivity|].
+  rewrite dedup_cons. destruct (existsb (rws_eqb T teqb rs) s2) eqn:E2.
+  - apply IH. intros x Hx. right. apply H. exact Hx.
+  - rewrite dedup_cons. destruct (existsb (rws_eqb T teqb rs) s1) eqn:E1.
+    + apply existsb_rws_In in E1. apply H in E1. apply existsb_rws_In in E1. congruence.
+    + f_equal. apply IH. intros x [Ex|Hx]; [left; exact Ex | right; apply H; exact Hx].
+Qed.
+
+Lemma dedup_seen_equiv (X : txm) : forall s rs,
+  In rs (map snd (dd s X)) \/ In rs s <-> In rs (map snd X) \/ In rs s.
+Proof.
+  induction X as [|[k r0] X IH]; intros s rs; [simpl; tauto|].
+  rewrite dedup_cons. specialize (IH (r0 :: s) rs). simpl in IH.
+  destruct (existsb (rws_eqb T teqb r0) s) eqn:E.
+  - apply existsb_rws_In in E. simpl.
+    assert (Hs : r0 = rs -> In rs s) by (intros <-; exact E).
+    tauto.
+  - simpl. tauto.
+Qed.
+
+Lemma dedup_in_inv key rs (X : txm) : forall s, In (key, rs) (dd s X) ->
+  exists X1 X2, X = X1 ++ (key, rs) :: X2 /\ ~ In rs (map snd X1) /\ ~ In rs s.
+Proof.
+  induction X as [|[k0 r0] X IH]; intros s H; [destruct H|].
+  rewrite dedup_cons in H.
+  assert (Htail : In (key, rs) (dd (r0 :: s) X) ->
+                  exists X1 X2, (k0, r0) :: X = X1 ++ (key, rs) :: X2
+                                /\ ~ In rs (map snd X1) /\ ~ In rs s).
+  { intros H'. destruct (IH _ H') as [X1 [X2 (E & N1 & N2)]].
+    exists ((k0, r0) :: X1), X2. split; [rewrite E; reflexivity|]. split.
+    - simpl. intros [E0|H0]; [apply N2; left; exact E0 | exact (N1 H0)].
+    - intros H0. apply N2. right. exact H0. }
+  destruct (existsb (rws_eqb T teqb r0) s) eqn:Ex.
+  - exact (Htail H).
+  - destruct H as [E|H]; [|exact (Htail H)].
+    inversion E; subst. exists [], X. split; [reflexivity|]. split; [intros []|].
+    intros Hin. apply existsb_rws_In in Hin. congruence.
+Qed.
+
+Lemma dedup_in_intro (X1 : txm) key rs X2 :
+  ~ In rs (map snd X1) -> In (key, rs) (dd [] (X1 ++ (key, rs) :: X2)).
+Proof.
+  intros N. rewrite dedup_app, dedup_cons, app_nil_r.
+  destruct (existsb (rws_eqb T teqb rs) (rev (map snd X1))) eqn:E.
+  - apply existsb_rws_In in E. rewrite <- in_rev in E. contradiction.
+  - apply in_or_app. right. left. reflexivity.
+Qed.
+
+(* ---- the un-deduplicated map of everything, and the closed form of run_groups ---- *)
+Fixpoint full (k cnt : Z) (tr : txm) (gs : list (list (yielded T))) : txm :=
+  match gs with
+  | [] => tr
+  | g :: gs' =>
+      let '(items, cnt') := fill T cnt g in
+      full (k + 1) cnt' (add_items T k items tr) gs'
+  end.
+
+Lemma step_tr k items (X : txm) :
+  groups_lt k X -> dd [] (add_items T k items (dd [] X)) = dd [] (add_items T k items X).
+Proof.
+  intros H.
+  assert (H' : groups_lt k (dd [] X)) by (apply dedup_Forall; exact H).
+  rewrite (add_items_app_nil k items (dd [] X) H'), (add_items_app_nil k items X H), !dedup_app.
+  f_equal.
+  - apply dedup_idem. intros rs Hrs; exact Hrs.
+  - apply dedup_ext. intros rs. rewrite !app_nil_r, <- !in_rev.
+    generalize (dedup_seen_equiv X [] rs). simpl. tauto.
+Qed.
+
+Lemma step_sched k items (X : txm) :
+  groups_lt k X ->
+  fold_left (ptx k) (dd [] (add_items T k items X)) (fold_left process_any (dd [] X) [])
+  = fold_left process_any (dd [] (add_items T k items X)) [].
+Proof.
+  intros H. rewrite (add_items_app_nil k items X H), dedup_app, !fold_left_app.
+  rewrite (fold_process_skip k (dd [] X)).
+  - apply fold_process_same. apply dedup_Forall. apply add_items_groups. constructor.
+  - apply dedup_Forall. eapply Forall_impl; [|exact H]. intros e He. simpl in He. lia.
+Qed.
+
+Lemma run_groups_closed gs : forall k cnt (X : txm), groups_lt k X ->
+  run_groups T teqb ilines k cnt (dd [] X) (fold_left process_any (dd [] X) []) gs
+  = (dd [] (full k cnt X gs), fold_left process_any (dd [] (full k cnt X gs)) []).
+Proof.
+  induction gs as [|g gs IH]; intros k cnt X H; [reflexivity|].
+  rewrite run_groups_cons. simpl full. destruct (fill T cnt g) as [items cnt']. cbv zeta.
+  rewrite step_tr, step_sched by exact H.
+  apply IH.
+  unfold groups_lt. rewrite (add_items_app_nil k items X H). apply Forall_app. split.
+  - eapply Forall_impl; [|exact H]. intros e He. simpl in He. lia.
+  - eapply Forall_impl; [|apply (add_items_groups k items []); constructor].
+    intros e He. simpl in He. lia.
+Qed.
+
+Lemma accepted_closed groups :
+  accepted_unsorted T teqb ilines groups
+  = fold_left process_any (dd [] (full 0 START_COUNT [] groups)) [].
+Proof.
+  unfold accepted_unsorted.
+  exact (f_equal snd (run_groups_closed groups 0 START_COUNT [] (Forall_nil _))).
+Qed.
+
+(* ---- sortedness of the key map, lookup ---- *)
+Fixpoint sorted_keys (tr : txm) : Prop :=
+  match tr with
+  | [] => True
+  | e :: tl => Forall (fun e' => klt (fst e) (fst e')) tl /\ sorted_keys tl
+  end.
+
+Lemma tr_add_sorted k r (tr : txm) : sorted_keys tr -> sorted_keys (tr_add T k r tr).
+Proof.
+  induction tr as [|[k' rs] tl IH]; intros H.
+  - simpl. split; [constructor | exact I].
+  - rewrite tr_add_cons. destruct H as [Hall Hs]. simpl in Hall.
+    destruct (key_cmp k k') eqn:Hc.
+    + split; [exact Hall | exact Hs].
+    + split; [| split; [exact Hall | exact Hs]].
+      constructor; [exact Hc|].
+      eapply Forall_impl; [|exact Hall]. intros e He. simpl in *.
+      eapply klt_trans; [exact Hc | exact He].
+    + split; [| apply IH; exact Hs].
+      apply (tr_add_keys (fun x => klt k' x)); [exact Hall|].
+      apply key_cmp_Gt in Hc. exact Hc.
+Qed.
+
+Lemma add_items_sorted k items : forall (tr : txm),
+  sorted_keys tr -> sorted_keys (add_items T k items tr).
+Proof.
+  induction items as [|it items IH]; intros tr H; [exact H|].
+  rewrite add_items_cons. apply IH, tr_add_sorted, H.
+Qed.
+
+Lemma full_sorted gs : forall k cnt (tr : txm), sorted_keys tr -> sorted_keys (full k cnt tr gs).
+Proof.
+  induction gs as [|g gs IH]; intros k cnt tr H; [exact H|].
+  simpl. destruct (fill T cnt g) as [items cnt']. apply IH, add_items_sorted, H.
+Qed.
+
+Lemma dedup_sorted (X : txm) : forall s, sorted_keys X -> sorted_keys (dd s X).
+Proof.
+  induction X as [|[k rs] X IH]; intros s H; [exact I|].
+  destruct H as [Hall Hs]. rewrite dedup_cons.
+  destruct (existsb (rws_eqb T teqb rs) s); [apply IH; exact Hs|].
+  split; [apply dedup_Forall; exact Hall | apply IH; exact Hs].
+Qed.
+
+Lemma sorted_split (X1 : txm) e X2 : sorted_keys (X1 ++ e :: X2) ->
+  sorted_keys X1 /\ (forall e', In e' X1 -> klt (fst e') (fst e))
+  /\ (forall e', In e' X2 -> klt (fst e) (fst e')).
+Proof.
+  induction X1 as [|a X1 IH]; intros H.
+  - destruct H as [Hall _]. split; [exact I|]. split; [intros ? []|].
+    rewrite Forall_forall in Hall. exact Hall.
+  - rewrite <- app_comm_cons in H. destruct H as [Hall Hs]. destruct (IH Hs) as (S1 & B & A').
+    rewrite Forall_forall in Hall.
+    split; [split; [apply Forall_forall; intros x Hx; apply Hall; apply in_or_app; left; exact Hx
+                   | exact S1]|].
+    split; [|exact A'].
+    intros e' [Ee|He']; [subst e'; apply Hall; apply in_or_app; right; left; reflexivity
+                        | apply B; exact He'].
+Qed.
+
+Fixpoint lookup (key : tkey) (tr : txm) : list rw :=
+  match tr with
+  | [] => []
+  | e :: tl => if key_eqb (fst e) key then snd e else lookup key tl
+  end.
+
+Lemma lookup_none key (tr : txm) : Forall (fun e => klt key (fst e)) tr -> lookup key tr = [].
+Proof.
+  induction tr as [|e tl IH]; intros H; simpl; [reflexivity|].
+  inversion H as [|? ? He Htl]; subst.
+  destruct (key_eqb (fst e) key) eqn:E.
+  - apply key_eqb_spec in E. rewrite E in He. exfalso. exact (klt_irrefl _ He).
+  - apply IH; exact Htl.
+Qed.
+
+Lemma lookup_tr_add key k r (tr : txm) : sorted_keys tr ->
+  lookup key (tr_add T k r tr) = if key_eqb k key then lookup key tr ++ [r] else lookup key tr.
+Proof.
+  induction tr as [|[k' rs] tl IH]; intros H.
+  - simpl. destruct (key_eqb k key); reflexivity.
+  - destruct H as [Hall Hs]. simpl in Hall. rewrite tr_add_cons.
+    destruct (key_cmp k k') eqn:Hc.
+    + apply key_cmp_Eq in Hc. subst k'. simpl. destruct (key_eqb k key); reflexivity.
+    + change (lookup key ((k, [r]) :: (k', rs) :: tl))
+        with (if key_eqb k key then [r] else lookup key ((k', rs) :: tl)).
+      destruct (key_eqb k key) eqn:E; [|reflexivity].
+      apply key_eqb_spec in E. subst key.
+      rewrite (lookup_none k ((k', rs) :: tl)); [reflexivity|].
+      constructor; [exact Hc|]. eapply Forall_impl; [|exact Hall].
+      intros e He; simpl in *. eapply klt_trans; [exact Hc | exact He].
+    + change (lookup key ((k', rs) :: tr_add T k r tl))
+        with (if key_eqb k' key then rs else lookup key (tr_add T k r tl)).
+      change (lookup key ((k', rs) :: tl)) with (if key_eqb k' key then rs else lookup key tl).
+      rewrite (IH Hs).
+      destruct (key_eqb k' key) eqn:E'; [|reflexivity].
+      apply key_eqb_spec in E'. subst key.
+      rewrite key_eqb_neq; [reflexivity|].
+      intros Ek. subst k'. apply key_cmp_Gt in Hc. exact (klt_irrefl _ Hc).
+Qed.
+
+Lemma lookup_add_items key k items : forall (tr : txm), sorted_keys tr ->
+  lookup key (add_items T k items tr)
+  = lookup key tr ++ map snd (filter (fun it => key_eqb (k, fst it) key) items).
+Proof.
+  induction items as [|it items IH]; intros tr H.
+  - unfold add_items; simpl. rewrite app_nil_r. reflexivity.
+  - rewrite add_items_cons, IH by (apply tr_add_sorted; exact H).
+    rewrite lookup_tr_add by exact H. simpl filter.
+    destruct (key_eqb (k, fst it) key); simpl; [rewrite <- app_assoc|]; reflexivity.
+Qed.
+
+Lemma filter_map_items key k (items : list (Z * rw)) :
+  filter (fun e : entry => key_eqb (fst e) key) (map (fun it => ((k, fst it), snd it)) items)
+  = map (fun it => ((k, fst it), snd it)) (filter (fun it => key_eqb (k, fst it) key) items).
+Proof.
+  induction items as [|it items IH]; simpl; [reflexivity|].
+  destruct (key_eqb (k, fst it) key); simpl; rewrite IH; reflexivity.
+Qed.
+
+Lemma lookup_full key gs : forall k cnt (tr : txm), sorted_keys tr ->
+  lookup key (full k cnt tr gs)
+  = lookup key tr ++ map snd (filter (fun e => key_eqb (fst e) key) (all_items k cnt gs)).
+Proof.
+  induction gs as [|g gs IH]; intros k cnt tr H.
+  - simpl. rewrite app_nil_r; reflexivity.
+  - simpl. destruct (fill T cnt g) as [items cnt'].
+    rewrite IH by (apply add_items_sorted; exact H).
+    rewrite lookup_add_items by exact H.
+    rewrite filter_app, map_app, filter_map_items, map_map, app_assoc. reflexivity.
+Qed.
+
+Lemma tx_of_lookup groups key : tx_of groups key = lookup key (full 0 START_COUNT [] groups).
+Proof.
+  unfold tx_of. rewrite (lookup_full key groups 0 START_COUNT [] I). reflexivity.
+Qed.
+
+Lemma sorted_lookup_in (tr : txm) key rs : sorted_keys tr -> In (key, rs) tr -> lookup key tr = rs.
+Proof.
+  induction tr as [|e tl IH]; intros Hs Hin; [destruct Hin|].
+  destruct Hs as [Hall Hs]. simpl. destruct Hin as [Ee|Hin].
+  - subst e. simpl. rewrite key_eqb_refl. reflexivity.
+  - rewrite Forall_forall in Hall. specialize (Hall _ Hin). simpl in Hall.
+    rewrite key_eqb_neq; [apply IH; assumption|].
+    intros E. rewrite E in Hall. exact (klt_irrefl _ Hall).
+Qed.
+
+Lemma lookup_in (tr : txm) key : lookup key tr <> [] -> In (key, lookup key tr) tr.
+Proof.
+  induction tr as [|e tl IH]; simpl; intros H; [congruence|].
+  destruct (key_eqb (fst e) key) eqn:E.
+  - apply key_eqb_spec in E. left. destruct e as [k0 r0]; simpl in *. subst k0. reflexivity.
+  - right. apply IH; exact H.
+Qed.
+
+(* ---- the accept/drop fold ---- *)
+Lemma proc_spec (D : txm) : forall s, exists ext,
+  fold_left process_any D s = s ++ ext /\
+  forall k' r', In (k', r') ext -> exists rs', In (k', rs') D /\ In r' (nodup' rs').
+Proof.
+  induction D as [|e D IH]; intros s.
+  - exists []. simpl. rewrite app_nil_r. split; [reflexivity | intros ? ? []].
+  - simpl fold_left. destruct (IH (process_any s e)) as [ext [Hext Hin]].
+    destruct (process_any_ext s e) as [E | [_ E]].
+    + exists ext. split; [rewrite Hext, E; reflexivity|].
+      intros k' r' H. destruct (Hin k' r' H) as [rs' [H1 H2]].
+      exists rs'. split; [right; exact H1 | exact H2].
+    + exists (tx_entries e ++ ext). split; [rewrite Hext, E, <- app_assoc; reflexivity|].
+      intros k' r' H. apply in_app_or in H. destruct H as [H|H].
+      * unfold tx_entries in H. apply in_map_iff in H. destruct H as [r [Hr Hr']].
+        inversion Hr; subst. exists (snd e).
+        split; [left; destruct e; reflexivity | exact Hr'].
+      * destruct (Hin k' r' H) as [rs' [H1 H2]].
+        exists rs'. split; [right; exact H1 | exact H2].
+Qed.
+
+Lemma proc_prefix (D1 D2 : txm) x :
+  In x (fold_left process_any D1 []) -> In x (fold_left process_any (D1 ++ D2) []).
+Proof.
+  intros H. rewrite fold_left_app.
+  destruct (proc_spec D2 (fold_left process_any D1 [])) as [ext [E _]].
+  rewrite E. apply in_or_app. left. exact H.
+Qed.
+
+Lemma proc_split (D1 : txm) e D2 : sorted_keys (D1 ++ e :: D2) ->
+  exists ext2,
+    fold_left process_any (D1 ++ e :: D2) [] = process_any (fold_left process_any D1 []) e ++ ext2
+    /\ (forall k' r', In (k', r') (fold_left process_any D1 []) ->
+          klt k' (fst e) /\ exists rs', In (k', rs') D1 /\ In r' (nodup' rs'))
+    /\ (forall k' r', In (k', r') ext2 -> klt (fst e) k').
+Proof.
+  intros Hs. destruct (sorted_split _ _ _ Hs) as (_ & HB & HA).
+  rewrite fold_left_app. simpl fold_left.
+  destruct (proc_spec D1 []) as [ext1 [E1 H1]]. simpl in E1.
+  destruct (proc_spec D2 (process_any (fold_left process_any D1 []) e)) as [ext2 [E2 H2]].
+  exists ext2. split; [exact E2|]. split.
+  - intros k' r' H. rewrite E1 in H. destruct (H1 k' r' H) as [rs' [Hin Hr]].
+    split; [apply (HB (k', rs') Hin) | exists rs'; split; assumption].
+  - intros k' r' H. destruct (H2 k' r' H) as [rs' [Hin _]]. apply (HA (k', rs') Hin).
+Qed.
+
+(* an entry of the accepted list comes from a transaction that was judged Accepted against
+   exactly the entries produced by the strictly smaller keys *)
+Lemma sched_in_inv (D : txm) key r : sorted_keys D ->
+  In (key, r) (fold_left process_any D []) ->
+  exists D1 rs D2, D = D1 ++ (key, rs) :: D2
+    /\ judge T ilines (fold_left process_any D1 []) (nodup' rs) = Accepted
+    /\ In r (nodup' rs).
+Proof.
+  intros Hs Hin.
+  destruct (proc_spec D []) as [ext [E H]]. simpl in E.
+  assert (Hin' := Hin). rewrite E in Hin'. destruct (H _ _ Hin') as [rs [HinD _]].
+  destruct (in_split _ _ HinD) as [D1 [D2 HD]]. subst D.
+  exists D1, rs, D2. split; [reflexivity|].
+  destruct (proc_split D1 (key, rs) D2 Hs) as [ext2 (E2 & HB & HA)].
+  rewrite E2 in Hin. apply in_app_or in Hin. destruct Hin as [Hin|Hin].
+  - destruct (process_any_ext (fold_left process_any D1 []) (key, rs)) as [E3 | [HJ E3]];
+      rewrite E3 in Hin.
+    + exfalso. destruct (HB _ _ Hin) as [Hlt _]. exact (klt_irrefl _ Hlt).
+    + apply in_app_or in Hin. destruct Hin as [Hin|Hin].
+      * exfalso. destruct (HB _ _ Hin) as [Hlt _]. exact (klt_irrefl _ Hlt).
+      * split; [exact HJ|]. unfold tx_entries in Hin. apply in_map_iff in Hin.
+        destruct Hin as [r0 [Er Hr]]. inversion Er; subst. exact Hr.
+  - exfalso. exact (klt_irrefl _ (HA _ _ Hin)).
+Qed.
+
+Lemma sched_in_intro (D1 : txm) key rs D2 r : sorted_keys (D1 ++ (key, rs) :: D2) ->
+  judge T ilines (fold_left process_any D1 []) (nodup' rs) = Accepted ->
+  In r (nodup' rs) ->
+  In (key, r) (fold_left process_any (D1 ++ (key, rs) :: D2) []).
+Proof.
+  intros Hs HJ Hr. destruct (proc_split D1 (key, rs) D2 Hs) as [ext2 (E2 & _ & _)].
+  rewrite E2. apply in_or_app. left. rewrite (process_any_accept _ (key, rs) HJ).
+  apply in_or_app. right. unfold tx_entries. simpl.
+  apply in_map_iff. exists r. split; [reflexivity | exact Hr].
+Qed.
+
+(* all entries with a given key, in the accepted list *)
+Lemma filter_key_sched (D : txm) key : sorted_keys D ->
+  filter (fun e : entry => key_eqb (fst e) key) (fold_left process_any D []) = [] \/
+  exists rs, In (key, rs) D /\
+    filter (fun e : entry => key_eqb (fst e) key) (fold_left process_any D [])
+    = map (fun r => (key, r)) (nodup' rs).
+Proof.
+  intros Hs.
+  destruct (existsb (fun e : tkey * list rw => key_eqb (fst e) key) D) eqn:HE.
+  - apply existsb_exists in HE. destruct HE as [[k0 rs] [Hin Hk]]. simpl in Hk.
+    apply key_eqb_spec in Hk. subst k0.
+    destruct (in_split _ _ Hin) as [D1 [D2 HD]]. subst D.
+    destruct (proc_split D1 (key, rs) D2 Hs) as [ext2 (E & HB & HA)].
+    rewrite E.
+    assert (F1 : filter (fun e : entry => key_eqb (fst e) key) (fold_left process_any D1 []) = []).
+    { apply filter_nil. intros [k' r'] Hx. simpl. apply key_eqb_neq. intros Ek. subst k'.
+      destruct (HB _ _ Hx) as [Hlt _]. exact (klt_irrefl _ Hlt). }
+    assert (F2 : filter (fun e : entry => key_eqb (fst e) key) ext2 = []).
+    { apply filter_nil. intros [k' r'] Hx. simpl. apply key_eqb_neq. intros Ek. subst k'.
+      exact (klt_irrefl _ (HA _ _ Hx)). }
+    rewrite filter_app, F2, app_nil_r.
+    destruct (process_any_ext (fold_left process_any D1 []) (key, rs)) as [E' | [_ E']];
+      rewrite E'.
+    + left. exact F1.
+    + right. exists rs. split; [apply in_or_app; right; left; reflexivity|].
+      rewrite filter_app, F1. unfold tx_entries. simpl.
+      apply filter_all. intros x Hx. apply in_map_iff in Hx. destruct Hx as [r [Ex _]]. subst x.
+      simpl. apply key_eqb_refl.
+  - left. rewrite existsb_false_iff in HE.
+    destruct (proc_spec D []) as [ext [E H]]. rewrite E. simpl.
+    apply filter_nil. intros [k' r'] Hx. destruct (H _ _ Hx) as [rs' [Hin _]].
+    exact (HE (k', rs') Hin).
+Qed.
+
 (* ---- T10.1 atomicity: the scheduled entries of a transaction are none, or all of its
         (set-deduplicated) rewrites ---- *)
 Theorem schedule_atomic :
@@ -44,11 +883,38 @@ Theorem schedule_atomic :
     let got := filter (fun e => key_eqb (fst e) key) (schedule' groups) in
     got = [] \/ Permutation (map snd got) (nodup_rw T teqb (tx_of groups key)).
 Proof.
-Admitted.
+  intros groups key got.
+  pose (F := full 0 START_COUNT [] groups).
+  assert (HF : sorted_keys F) by (apply full_sorted; exact I).
+  assert (HD : sorted_keys (dd [] F)) by (apply dedup_sorted; exact HF).
+  assert (HP : Permutation (filter (fun e : entry => key_eqb (fst e) key)
+                                   (fold_left process_any (dd [] F) [])) got).
+  { unfold got, schedule. rewrite accepted_closed. apply filter_perm, sort_desc_perm. }
+  destruct (filter_key_sched (dd [] F) key HD) as [HS | [rs [Hin HS]]]; rewrite HS in HP.
+  - left. apply Permutation_nil in HP. exact HP.
+  - right. apply dedup_incl in Hin.
+    rewrite tx_of_lookup. fold F. rewrite (sorted_lookup_in F key rs HF Hin).
+    apply Permutation_sym. apply (Permutation_map snd) in HP.
+    rewrite map_map in HP. simpl in HP. rewrite map_id in HP. exact HP.
+Qed.
 
 (* ---- T10.3 drop characterisation (both directions) ---- *)
 Definition tx_scheduled (groups : list (list (yielded T))) (key : tkey) : Prop :=
   In key (map fst (schedule' groups)).
+
+Lemma scheduled_iff groups key :
+  tx_scheduled groups key <->
+  exists r, In (key, r) (fold_left process_any (dd [] (full 0 START_COUNT [] groups)) []).
+Proof.
+  unfold tx_scheduled, schedule. rewrite accepted_closed.
+  set (Sc := fold_left process_any (dd [] (full 0 START_COUNT [] groups)) []).
+  split.
+  - intros H. apply in_map_iff in H. destruct H as [[k r] [Ek Hin]]. simpl in Ek. subst k.
+    exists r. apply Permutation_in with (l := sort_desc T tcmp Sc);
+      [apply Permutation_sym, sort_desc_perm | exact Hin].
+  - intros [r Hin]. apply in_map_iff. exists (key, r). split; [reflexivity|].
+    apply Permutation_in with (l := Sc); [apply sort_desc_perm | exact Hin].
+Qed.
 
 Theorem schedule_drop_iff :
   forall groups key,
@@ -61,7 +927,97 @@ Theorem schedule_drop_iff :
             forall r r', In r (tx_of groups key) -> In r' (tx_of groups key') ->
                          overlaps (rrng r) (rrng r') = false).
 Proof.
-Admitted.
+  intros groups key.
+  pose (F := full 0 START_COUNT [] groups).
+  assert (HF : sorted_keys F) by (apply full_sorted; exact I).
+  assert (HD : sorted_keys (dd [] F)) by (apply dedup_sorted; exact HF).
+  assert (Htx : forall k, tx_of groups k = lookup k F) by (intros k; apply tx_of_lookup).
+  assert (HDF : forall k rs, In (k, rs) (dd [] F) -> tx_of groups k = rs).
+  { intros k rs Hin. rewrite Htx. apply sorted_lookup_in; [exact HF|].
+    apply dedup_incl in Hin. exact Hin. }
+  split.
+  - (* scheduled -> conditions *)
+    intros Hsch. apply scheduled_iff in Hsch. fold F in Hsch. destruct Hsch as [r Hr].
+    destruct (sched_in_inv _ _ _ HD Hr) as [D1 [rs [D2 (ED & HJ & Hrn)]]].
+    assert (HinD : In (key, rs) (dd [] F)).
+    { rewrite ED. apply in_or_app; right; left; reflexivity. }
+    assert (Ers : tx_of groups key = rs) by (apply HDF; exact HinD).
+    apply judge_accepted_iff in HJ. destruct HJ as (Hign & Hself & Hsc).
+    rewrite Ers.
+    split; [|split; [|split; [|split]]].
+    + intros En. rewrite En in Hrn. simpl in Hrn. exact Hrn.
+    + intros [key' [Hlt Eq']].
+      destruct (dedup_in_inv _ _ _ _ HinD) as [X1 [X2 (EF & N1 & _)]].
+      assert (HF' := HF). rewrite EF in HF'.
+      destruct (sorted_split _ _ _ HF') as (_ & HB & HA).
+      assert (Hin' : In (key', rs) F).
+      { assert (El : lookup key' F = rs) by (rewrite <- Htx; congruence).
+        assert (Hne : lookup key' F <> []).
+        { rewrite El. intros En. rewrite En in Hrn. simpl in Hrn. exact Hrn. }
+        apply lookup_in in Hne. rewrite El in Hne. exact Hne. }
+      rewrite EF in Hin'. apply in_app_or in Hin'. destruct Hin' as [Hin'|[Hin'|Hin']].
+      * apply N1. apply in_map_iff. exists (key', rs). split; [reflexivity | exact Hin'].
+      * inversion Hin'; subst. exact (klt_irrefl _ Hlt).
+      * apply HA in Hin'. simpl in Hin'. exact (klt_asym _ _ Hlt Hin').
+    + rewrite existsb_nodup_rw in Hign. exact Hign.
+    + exact Hself.
+    + intros key' Hlt Hsch' r1 r' Hr1 Hr'.
+      apply scheduled_iff in Hsch'. fold F in Hsch'. destruct Hsch' as [r0 Hr0].
+      rewrite ED in HD, Hr0.
+      destruct (proc_split D1 (key, rs) D2 HD) as [ext2 (E2 & HB & HA)].
+      destruct (sorted_split _ _ _ HD) as (HD1 & _ & _).
+      assert (Hr0' : In (key', r0) (fold_left process_any D1 [])).
+      { rewrite E2 in Hr0. apply in_app_or in Hr0. destruct Hr0 as [Hr0|Hr0].
+        - destruct (process_any_ext (fold_left process_any D1 []) (key, rs)) as [E3 | [_ E3]];
+            rewrite E3 in Hr0; [exact Hr0|].
+          apply in_app_or in Hr0. destruct Hr0 as [Hr0|Hr0]; [exact Hr0|].
+          exfalso. unfold tx_entries in Hr0. apply in_map_iff in Hr0.
+          destruct Hr0 as [x [Ex _]]. inversion Ex; subst. exact (klt_irrefl _ Hlt).
+        - exfalso. apply HA in Hr0. simpl in Hr0. exact (klt_asym _ _ Hlt Hr0). }
+      destruct (sched_in_inv _ _ _ HD1 Hr0') as [A1 [rs' [A2 (EA & HJ' & _)]]].
+      assert (Ers' : tx_of groups key' = rs').
+      { apply HDF. rewrite ED, EA. apply in_or_app. left. apply in_or_app. right. left.
+        reflexivity. }
+      rewrite Ers' in Hr'.
+      assert (Hin1 : In (key', r') (fold_left process_any D1 [])).
+      { rewrite EA. apply sched_in_intro; [rewrite <- EA; exact HD1 | exact HJ' |].
+        apply nodup_rw_In. exact Hr'. }
+      rewrite sched_conflict_false in Hsc.
+      apply (Hsc r1 (key', r')); [apply nodup_rw_In; exact Hr1 | exact Hin1].
+  - (* conditions -> scheduled *)
+    intros (Hne & Hmin & Hign & Hself & Hprev).
+    apply scheduled_iff. fold F.
+    set (rs := tx_of groups key) in *.
+    assert (HinF : In (key, rs) F).
+    { unfold rs. rewrite Htx. apply lookup_in. rewrite <- Htx. exact Hne. }
+    destruct (in_split _ _ HinF) as [X1 [X2 EF]].
+    assert (HF' := HF). rewrite EF in HF'.
+    destruct (sorted_split _ _ _ HF') as (_ & HB & _).
+    assert (HinD : In (key, rs) (dd [] F)).
+    { rewrite EF. apply dedup_in_intro. intros Hin. apply in_map_iff in Hin.
+      destruct Hin as [[k' rs'] [Es Hin]]. simpl in Es. subst rs'.
+      apply Hmin. exists k'. split; [exact (HB _ Hin)|].
+      rewrite Htx. apply sorted_lookup_in; [exact HF|]. rewrite EF. apply in_or_app. left.
+      exact Hin. }
+    destruct (in_split _ _ HinD) as [D1 [D2 ED]].
+    rewrite ED in HD.
+    destruct (proc_split D1 (key, rs) D2 HD) as [ext2 (E2 & HB2 & _)].
+    assert (HJ : judge T ilines (fold_left process_any D1 []) (nodup' rs) = Accepted).
+    { apply judge_accepted_iff. split; [|split].
+      - rewrite existsb_nodup_rw. exact Hign.
+      - exact Hself.
+      - apply sched_conflict_false. intros r [k' r'] Hr Ho. simpl.
+        destruct (HB2 _ _ Ho) as [Hlt [rs' [Hin' Hr']]]. simpl in Hlt.
+        apply (Hprev k' Hlt).
+        + apply scheduled_iff. fold F. exists r'. rewrite ED. apply proc_prefix. exact Ho.
+        + apply nodup_rw_In. exact Hr.
+        + assert (Ers' : tx_of groups k' = rs').
+          { apply HDF. rewrite ED. apply in_or_app. left. exact Hin'. }
+          rewrite Ers'. apply nodup_rw_In. exact Hr'. }
+    destruct rs as [|a tl] eqn:Ers; [congruence|].
+    exists a. rewrite ED. apply sched_in_intro; [exact HD | exact HJ |].
+    apply nodup_rw_In. left. reflexivity.
+Qed.
 
 End Proofs.
 
@@ -76,31 +1032,71 @@ Theorem apply_rollback :
     let r := apply_rewrites A valid restore src rws in
     r = src \/ valid r = true.
 Proof.
-Admitted.
+  intros src rws r. unfold r, apply_rewrites; cbv zeta.
+  destruct (valid (apply_all A src rws)) eqn:E1; simpl; [|left; reflexivity].
+  destruct (valid (restore src (apply_all A src rws))) eqn:E2; simpl;
+    [right; exact E2 | left; reflexivity].
+Qed.
 
 Theorem apply_invalid_identity :
   forall src rws, valid (apply_all A src rws) = false -> apply_rewrites A valid restore src rws = src.
 Proof.
-Admitted.
+  intros src rws H. unfold apply_rewrites; cbv zeta. rewrite H. reflexivity.
+Qed.
 
 Theorem apply_preserves_valid :
   forall src rws, valid src = true -> valid (apply_rewrites A valid restore src rws) = true.
 Proof.
-Admitted.
+  intros src rws H. pose proof (apply_rollback src rws) as HR. cbv zeta in HR.
+  destruct HR as [E|E]; [rewrite E; exact H | exact E].
+Qed.
 
 Variable pass : list A -> list A.
 Variable src_eqb : list A -> list A -> bool.
+
+Lemma fix_loop_bounded :
+  forall n orig cur,
+    exists m, (m <= n)%nat /\ fix_loop A pass src_eqb n orig cur = Nat.iter m pass cur.
+Proof.
+  induction n as [|n IH]; intros orig cur.
+  - exists O. split; [apply le_n | reflexivity].
+  - simpl fix_loop. destruct (src_eqb (pass cur) orig).
+    + exists 1%nat. split; [lia | reflexivity].
+    + destruct (IH orig (pass cur)) as [m [Hm Em]].
+      exists (S m). split; [lia|]. rewrite Em, iter_succ_r. reflexivity.
+Qed.
 
 Theorem fix_bounded :
   forall max_iter src,
     exists n, (n <= max_iter)%nat /\ fix_wrapper A pass src_eqb max_iter src = Nat.iter n pass src.
 Proof.
-Admitted.
+  intros max_iter src. unfold fix_wrapper. apply fix_loop_bounded.
+Qed.
+
+Lemma fix_loop_preserves :
+  forall (P : list A -> Prop), (forall s, P s -> P (pass s)) ->
+  forall n orig cur, P cur -> P (fix_loop A pass src_eqb n orig cur).
+Proof.
+  intros P HP. induction n as [|n IH]; intros orig cur H; [exact H|].
+  simpl fix_loop. destruct (src_eqb (pass cur) orig).
+  - apply HP; exact H.
+  - apply IH. apply HP; exact H.
+Qed.
 
 Theorem fix_preserves :
   forall (P : list A -> Prop), (forall s, P s -> P (pass s)) ->
   forall max_iter src, P src -> P (fix_wrapper A pass src_eqb max_iter src).
 Proof.
-Admitted.
+  intros P HP max_iter src H. unfold fix_wrapper. apply fix_loop_preserves; assumption.
+Qed.
 
 End ApplyProofs.
+
+Print Assumptions schedule_disjoint.
+Print Assumptions schedule_atomic.
+Print Assumptions schedule_drop_iff.
+Print Assumptions apply_rollback.
+Print Assumptions apply_invalid_identity.
+Print Assumptions apply_preserves_valid.
+Print Assumptions fix_bounded.
+Print Assumptions fix_preserves.
